@@ -87,6 +87,15 @@ def scenarios(tier):
                     if act['kind'] in ('replace', 'readd'):
                         yield {'leg': 'eq_by_value', 'prios': v, 't': t, 'acts': [dict(act, actor=actor)],
                                'eq_by_value': True}
+    # ids that are not plain strings, system classes with an ordering of their own, work handed to a helper thread
+    for v in vectors(3):
+        n = len(v)
+        for t in (0, 1):
+            for actor in range(n):
+                for act in actions_for(n, actor):
+                    for flag in ({'id_kind': 'int'}, {'id_kind': 'strsub'}, {'id_kind': 'strenum'}, {'id_kind': 'tuple'},
+                                 {'own_lt': True}, {'via_thread': True}):
+                        yield dict({'leg': 'variants', 'prios': v, 't': t, 'acts': [dict(act, actor=actor)]}, **flag)
     # collectors among the systems: the target of the action, or every system, is a collector
     for v in vectors(3):
         n = len(v)
@@ -294,17 +303,53 @@ def run_scenario(case):
                 run_sandbox()
             for act in now:
                 act['done'] = True
-                perform(self, act)
+                if case.get('via_thread'):
+                    # the system hands its work to a helper thread and waits for it
+                    import threading
+                    err = []
+
+                    def work():
+                        try:
+                            perform(self, act)
+                        except BaseException as e:      # noqa - re-raised in the system's own thread
+                            err.append(e)
+                    th = threading.Thread(target=work)
+                    th.start()
+                    th.join()
+                    if err:
+                        raise err[0]
+                else:
+                    perform(self, act)
                 if act.get('boom') == 'hard':
                     raise HardStop(f'{self.key} is interrupted after its action')
                 if act.get('boom'):
                     raise Halt(f'{self.key} fails after its action')      # the driver catches it and carries on
 
+    idmap = {}
+
+    def I(sid):
+        """The id the scheduler sees for the harness name sid: the name itself, or (id_kind) a value of another type."""
+        kind = case.get('id_kind')
+        if kind is None:
+            return sid
+        if sid not in idmap:
+            if kind == 'int':
+                idmap[sid] = 1000 + len(idmap)
+            elif kind == 'strsub':
+                idmap[sid] = type('Name', (str,), {})(sid)
+            elif kind == 'strenum':
+                import enum
+                idmap[sid] = enum.Enum('Stage', {sid: sid}, type=str)[sid]
+            elif kind == 'tuple':
+                idmap[sid] = ('sys', sid)
+        return idmap[sid]
+
     class S(Core.System):
         # key names the object (unique), id is what the scheduler sees (a replacement object reuses an id)
         def __init__(self, key, sid, prio, end=None, freq=1):
-            super().__init__(sid, model, priority=prio, frequency=freq, **({} if end is None else {'end': end}))
+            super().__init__(I(sid), model, priority=prio, frequency=freq, **({} if end is None else {'end': end}))
             self.key = key
+            self.sid = sid
             self.todo = []
             self.muted = False
             if end is not None:
@@ -318,8 +363,9 @@ def run_scenario(case):
         """The same recorder as a collector (other base constructor; the library may treat collectors specially)."""
 
         def __init__(self, key, sid, prio, end=None):
-            super().__init__(sid, model, priority=prio, **({} if end is None else {'end': end}))
+            super().__init__(I(sid), model, priority=prio, **({} if end is None else {'end': end}))
             self.key = key
+            self.sid = sid
             self.todo = []
             self.muted = False
             if end is not None:
@@ -351,17 +397,22 @@ def run_scenario(case):
             cls.__eq__ = lambda a, b: isinstance(b, Core.System) and (a.id, a.priority) == (b.id, b.priority)
             cls.__hash__ = lambda a: hash((a.id, a.priority))
 
+    if case.get('own_lt'):
+        # system classes with an ordering of their own (alphabetical, for sorted() listings): no say in the schedule
+        for cls in (S, SC):
+            cls.__lt__ = lambda a, b: a.key < b.key
+
     objs = {}
     byid = {}         # id -> key of the object currently registered under it
 
     def register(o):
         model.systems.add_system(o)
         reg[o.key] = (o.priority, seq[0])
-        byid[o.id] = o.key
+        byid[o.sid] = o.key
         seq[0] += 1
 
     def unregister(sid):
-        model.systems.remove_system(sid)
+        model.systems.remove_system(I(sid))
         key = byid.pop(sid)
         del reg[key]
         events.append(('removed', key))
@@ -369,9 +420,9 @@ def run_scenario(case):
     def perform(actor, act):
         kind = act['kind']
         if kind == 'cleanup':
-            if byid.get(actor.id) == actor.key:
+            if byid.get(actor.sid) == actor.key:
                 actor.clean_up()
-                del reg[byid.pop(actor.id)]
+                del reg[byid.pop(actor.sid)]
                 events.append(('removed', actor.key))
         elif kind == 'remove':
             sid = f's{act["target"]}'
